@@ -137,6 +137,10 @@ def check_case(res, fr, arr, mode, layers, integrate, normalize, rescale, offset
 
 
 def cases(rng, tier):
+    # interfaces made of exactly horizontal / vertical segments through pixel-lattice points (several pixels long, integer coordinates)
+    for j in range(2 if tier == "quick" else 8):
+        yield gen.lattice_tissue(int(rng.integers(2, 4)), int(rng.integers(2, 4)), ["square", "brick"][j % 2], npts=int(rng.integers(1, 4)),
+                                 w=float(rng.integers(9, 40)), h=float(rng.integers(9, 40))), f"lattice{j}"
     n = 3 if tier == "quick" else 40
     for k in range(n):
         spec = gen.voronoi_tissue(rng, n=int(rng.integers(14, 30)), npts=int(rng.integers(1, 6)), mob_strength=float(rng.choice([0.0, 0.8])))
@@ -152,9 +156,10 @@ def run(res, tier, seed):
         combos = [(0, False, None), (1, False, "average"), (2, True, None), (1, True, "average"), (3, False, None), (0, True, None)]
         for layers, integrate, normalize in combos:
             mode = "L" if rng.random() < 0.5 else "F"
-            sc = float(rng.choice([1.0, 0.5, 0.25, 2.0, 1.5]))
+            sc = float(rng.choice([1.0, 0.5, 0.25, 2.0, 1.5])) if not label.startswith("lattice") else float(rng.choice([1.0, 2.0, 3.0]))
             rescale = [sc, sc]
-            offset = [float(rng.choice([6, 6.5, 10])), float(rng.choice([6, 7.5, 12]))]
+            offset = [float(rng.choice([6, 6.5, 10])), float(rng.choice([6, 7.5, 12]))] if not label.startswith("lattice") else \
+                [float(rng.integers(5, 14)), float(rng.integers(5, 14))]
             # the image covers the rescaled tissue (Moebius images can leave the unit box) plus the widest band
             ext = max(max(abs(x), abs(y)) for _, x, y in spec["vertices"])
             low = min(min(x, y) for _, x, y in spec["vertices"]) * sc + min(offset)
